@@ -7,6 +7,13 @@
      the field} x generator tapes (admissible first draw, inadmissible draws first, all zero; GOST: a private key that
      makes s = 0 on the first nonce) x alterations of r, s, hash, public key, signature length;
      each scenario records key generation, validation calls, signature, verification and every altered verification;
+ (1r) constructed histories for the REPETITIONS of the signing loops (S.retry_cmds): every dstu curve, g12s set and bign96 x
+     plans of draws (one-time key 0 / trimmed to 0 / = q / > q; dstu: r = 0 by a hash tied to the draw; dstu, g12s: s = 0 by a
+     private key tied to the draw d = -e / r, d = -k e / r; several repetitions in one call).  The line carries parameters,
+     d, H, the whole tape, signature, return codes, number of generator calls.  Cheap form on every line (signature equation
+     for the draw the library stopped at, ranges, Sign -> Verify); on the sets picked by the seed (quick) / all sets (thorough)
+     G12sSign / B96Sign / DstuSign of ref/Schemes.tla recompute the whole loop (which draw is used, the signature it defines),
+     the verification equation and the public key; TLC also confirms that every draw takes the planned branch;
  (2) spec/trace/Trace_Schemes.tla decides every line: private key = first admissible draw of the tape, components in
      range, the signature equation for s given r, Sign -> Verify, Gen -> Val, compression values and round trips,
      both pfok parties agree; alterations: out of range / padding / bad length => rejected, reduced hash unchanged =>
@@ -22,7 +29,9 @@ import suite_schemes as S
 
 LEVEL = "exploration"
 WORKERS = int(os.environ.get("VERIF_WORKERS", "0")) or None
-PART = {0: "whole-line", 1: "keypair-generation", 2: "signature-value", 3: "sign-then-verify", 4: "validation-call", 5: "compress-recover", 6: "key-agreement"}
+PART = {0: "whole-line", 1: "keypair-generation", 2: "signature-value", 3: "sign-then-verify", 4: "validation-call", 5: "compress-recover", 6: "key-agreement",
+        7: "planned-branches-not-taken"}
+RETRY_OPS = ("g12sRetry", "bign96Retry", "dstuRetry")
 
 
 def brief(row):
@@ -44,6 +53,13 @@ def key_of(row, part):
     sset = name.split(".")[-1] if name else ""
     if op == "gf2":
         return "gf2Tr/gf2QSolve:f=%s" % ",".join(str(x) for x in row.get("f", []))
+    if op in RETRY_OPS:
+        # scheme + the repetition branches the history goes through
+        scheme = op[:-5]
+        plan = str(row.get("plan", "")).replace(",", "+")
+        if part in (2, 3):
+            return "%sSign:retry:%s" % (scheme, plan)
+        return "%sSign:retry:%s:%s" % (scheme, plan, PART.get(part, str(part)))
     if part >= 10:
         alts = row.get("alts", [])
         a = alts[part - 11]["a"] if 0 < part - 10 <= len(alts) else "?"
@@ -155,6 +171,44 @@ def heavy_copies(rows, quick, rng):
     return out
 
 
+def retry_copies(rows, quick, rng):
+    """heavy copies of the constructed repetition histories: hs = the whole signing loop, hv = the verification equation,
+    hg = the public key.  quick: one dstu curve of the five smallest fields (all plans) and one of the next three (the s = 0
+    plan), one 256-bit g12s set, bign96 - chosen by the seed; thorough: everything.  A line on which the library did not use
+    the planned number of draws (or failed) always gets the loop copy: only the specification may decide it."""
+    out = []
+    dstu_m = sorted({x["f"][0] for x in rows if x["op"] == "dstuRetry"})
+    g256 = sorted({x["name"] for x in rows if x["op"] == "g12sRetry" and x["l"] == 256})
+    pick_d1 = rng.choice(dstu_m[:5]) if dstu_m else None
+    pick_d2 = rng.choice(dstu_m[5:8]) if len(dstu_m) > 5 else None
+    pick_g = rng.choice(g256) if g256 else None
+    for row in rows:
+        op = row["op"]
+        if op not in RETRY_OPS:
+            continue
+        plan = row["plan"]
+        odd = row.get("rcSign") != 0 or row.get("drawsSign") != len(row.get("want", []))
+        if op == "dstuRetry":
+            m = row["f"][0]
+            full = (not quick) or m == pick_d1
+            some = quick and m == pick_d2 and plan == "s0"
+            cost = (m / 163.0) ** 2 * 7
+        elif op == "g12sRetry":
+            full = (not quick) or row["name"] == pick_g
+            some = False
+            cost = 18 if row["l"] == 256 else 215
+        else:
+            full, some, cost = True, False, 10
+        nmul = sum(1 for w in row.get("want", []) if w in ("r=0", "s=0", "used"))
+        if full or some or odd:
+            out.append(dict(row, hs=1, copy="loop", cost=int(cost * nmul)))
+        if full and "s0" in plan.split(",") and (plan in ("s0", "e0,r0,s0", "kmax,s0,k0") or not quick) or (op == "bign96Retry" and plan == "k0,kq,kmax"):
+            out.append(dict(row, hv=1, copy="verify", cost=int(cost * 2)))
+        if full and plan in ("s0", "k0,kq,kmax"):
+            out.append(dict(row, hg=1, copy="gen", cost=int(cost)))
+    return out
+
+
 def run(ctx):
     ev = ctx.ev
     tier = "quick" if ctx.quick else "thorough"
@@ -178,9 +232,11 @@ def run(ctx):
     cmds = []
     cmds += S.g12s_cmds(rng, tier, {n: pr[("g12s", n)] for n in S.G12S_SETS})
     cmds += S.bign96_cmds(rng, tier, pr[("bign96", "")])
-    cmds += S.dstu_cmds(rng, tier, S.dstu_params(drv, env))
+    dpr = S.dstu_params(drv, env)
+    cmds += S.dstu_cmds(rng, tier, dpr)
     cmds += S.pfok_cmds(rng, tier, {n: pr[("pfok", n)] for n in S.PFOK_SETS})
     cmds += S.gf2_cmds(tier)
+    cmds += S.retry_cmds(rng, tier, pr, dpr)
     t1 = time.time()
     rows = run_exec(ctx, drv, cmds, "exec")
     t_exec = time.time() - t1
@@ -189,7 +245,15 @@ def run(ctx):
     rel_cmds = [c for c in cmds if c.startswith("bign96 ") and ("h=ones" in c or "h=q" in c)]
     rows_rel = [dict(x, variant="rel") for x in run_exec(ctx, drv_rel, rel_cmds, "exec_rel")]
     rows += rows_rel
-    lines = rows + heavy_copies([x for x in rows if "variant" not in x], ctx.quick, rng)
+    unbuilt = [x for x in rows if x["op"] in RETRY_OPS and x.get("rcStd", 0) == 0 and x.get("built") != 1]
+    if unbuilt:
+        ctx.note_inconclusive("%d repetition histories could not be constructed by the driver: %s" % (len(unbuilt), [(x["op"], x.get("name"), x.get("plan")) for x in unbuilt][:5]))
+        rows = [x for x in rows if x not in unbuilt]
+    base = [x for x in rows if "variant" not in x]
+    heavy = heavy_copies(base, ctx.quick, rng) + retry_copies(base, ctx.quick, random.Random(int(ctx.seed) * 7919 + 16))
+    # the expensive copies first: TLC's workers take the lines in order, so the long evaluations start at once
+    heavy.sort(key=lambda x: -x.get("cost", 0))
+    lines = heavy + rows
     t2 = time.time()
     n, bad, res = vlib.validate_lines(ctx, "Trace_Schemes", lines, timeout=3300, workers=WORKERS)
     t_tlc = time.time() - t2
@@ -197,9 +261,15 @@ def run(ctx):
         ctx.note_inconclusive("TLC evaluated %d of %d lines (rc=%s): %s" % (n, len(lines), res.rc, (res.violation or res.error or "")[:300]))
     parts = {int(i): [int(x) for x in re.findall(r"-?\d+", lst)] for i, lst in re.findall(r'<<\s*"@PARTS",\s*(\d+),\s*<<([^>]*)>>\s*>>', res.out)}
     seen = {}
+    unreached = []
     for i in bad:
         row = lines[i - 1]
         for part in parts.get(i, [0]):
+            if part == 7 and row["op"] in RETRY_OPS:
+                # the specification finds other branches than the planned ones: the history is not the intended one (no verdict
+                # on the code from this part; the other parts of the line are still decided by the specification's loop)
+                unreached.append((row["op"], row.get("name", ""), row.get("plan")))
+                continue
             key = key_of(row, part)
             seen[key] = seen.get(key, 0) + 1
             if seen[key] > 1:
@@ -209,7 +279,10 @@ def run(ctx):
                 row.get("op"), row.get("name", ""), row.get("cls", ""), PART.get(part, "alteration %s" % (alt["a"] if alt else part)),
                 (": altered verification returned %d" % alt["rc"]) if alt else ""),
                 {"line": brief(row), "part": part, "alteration": alt, "how": "re-run ./check C16; the line is decided by spec/trace/Trace_Schemes.tla"})
+    if unreached:
+        ctx.note_inconclusive("constructed histories do not take the planned repetition branches according to the specification: %s" % unreached[:5])
     selftest(ctx, rows)
+    retry_stats(ctx, rows, lines, bad)
     nalts = sum(len(x.get("alts", [])) for x in rows if isinstance(x.get("alts"), list))
     distinct = set()
     for x in rows:
@@ -218,7 +291,7 @@ def run(ctx):
             distinct.add((x["op"], x.get("name", ""), re.sub(r"\d+", "", a["a"])))
     ev.cov["scenarios"] = len(rows)
     ev.cov["altered_verifications"] = nalts
-    ev.cov["heavy_copies"] = len(lines) - len(rows)
+    ev.cov["heavy_copies"] = len(heavy)
     ev.cov["gf2_elements"] = sum(len(x.get("els", [])) for x in rows if x["op"] == "gf2")
     ev.cov["evaluations"] = len(rows) + nalts + ev.cov["gf2_elements"] + ev.cov["heavy_copies"]
     ev.cov["distinct_nontrivial"] = len(distinct)
@@ -236,6 +309,33 @@ def run(ctx):
     ev.assume("standards as transcribed in spec/ref/Schemes.tla (GOST R 34.10-2012 6.1/6.2, DSTU 4145-2002 5.8-5.10, 6.9, 6.10, 11-13, bign 7.1 at "
               "l = 96 with the library's s0 encoding, pfok.h), anchored by spec/ref/SchemeVectors.tla in this run")
     ev.assume("the standard parameter sets are those returned by the library (validated by C12)")
+
+
+def retry_stats(ctx, rows, lines, bad):
+    """measured counts of the repetition histories: lines, plans, and - from the loop copies TLC accepted, i.e. where the
+    specification itself found the planned branch for every draw - how often each branch was reached"""
+    ev = ctx.ev
+    retry = [x for x in rows if x["op"] in RETRY_OPS]
+    badset = set(bad)
+    reached = collections.Counter()
+    loops = 0
+    for i, x in enumerate(lines, 1):
+        if x["op"] in RETRY_OPS and x.get("copy") == "loop":
+            loops += 1
+            if i not in badset:
+                for w in x.get("want", [])[:-1]:
+                    reached["%s:%s" % (x["op"][:-5], w)] += 1
+    ev.cov["retry_histories"] = len(retry)
+    ev.cov["retry_histories_by_scheme"] = dict(collections.Counter(x["op"][:-5] for x in retry))
+    ev.cov["retry_plans"] = sorted({"%s:%s" % (x["op"][:-5], x["plan"]) for x in retry})
+    ev.cov["retry_draws_discarded_by_library"] = sum(max(0, x.get("drawsSign", 1) - 1) for x in retry)
+    ev.cov["retry_loop_copies"] = loops
+    ev.cov["retry_verify_copies"] = sum(1 for x in lines if x["op"] in RETRY_OPS and x.get("copy") == "verify")
+    ev.cov["retry_gen_copies"] = sum(1 for x in lines if x["op"] in RETRY_OPS and x.get("copy") == "gen")
+    ev.cov["retry_branches_confirmed_by_specification"] = dict(reached)
+    ev.cov["retry_sets_with_loop_copy"] = sorted({"%s:%s" % (x["op"][:-5], x.get("name", "")) for x in lines if x["op"] in RETRY_OPS and x.get("copy") == "loop"})
+    for x in [y for y in retry if y["op"] == "dstuRetry" and "s0" in y["plan"]][:1]:
+        ev.sample(brief(x))
 
 
 def selftest(ctx, rows):
@@ -257,6 +357,21 @@ def selftest(ctx, rows):
         mut.append(m)
         if op == "g12s":
             m2 = json.loads(json.dumps(cand[0])); m2["rcVerify"] = 510; mut.append(m2)
+    # repetition histories: (a) s of a dstu signature produced after the s = 0 repetition changed; (b) the library claims to have
+    # stopped one draw earlier (at the draw that gives s = 0); (c) the loop copy: the tape's discarded draw replaced by an
+    # admissible one - the specification's loop then defines another signature than the recorded one
+    for op, plan in (("dstuRetry", "s0"), ("g12sRetry", "s0"), ("bign96Retry", "k0,kq,kmax")):
+        cand = [r for r in rows if r["op"] == op and r.get("plan") == plan and r.get("rcSign") == 0 and r.get("built") == 1]
+        if not cand:
+            continue
+        m = json.loads(json.dumps(cand[int(ctx.seed) % len(cand)]))
+        if op == "dstuRetry":
+            m["sig"][len(m["sig"]) // 2] ^= 1
+        elif op == "g12sRetry":
+            m["drawsSign"] -= 1
+        else:
+            m["tape"][0] = 1; m["hs"] = 1
+        mut.append(m)
     if not mut:
         return
     n, bad, r = vlib.validate_lines(ctx, "Trace_Schemes", mut, timeout=900, workers=WORKERS)
